@@ -366,6 +366,9 @@ CALLS = [
     {"mode": "hydraulics", "nonlinear_method": "automatic", "iter": 30},
     {"mode": "sequential", "nonlinear_method": "automatic", "iter": 30},
     {"mode": "hydraulics", "use_numba": False, "friction_model": "colebrook"},
+    {"mode": "bidirectional", "tol_m": 1e-4, "tol_p": 5e-8, "tol_res": 1e-1, "iter": 30},
+    {"mode": "hydraulics", "tol_m": 1e-8, "tol_p": 1e3, "tol_res": 1e6, "iter": 30},
+    {"mode": "sequential", "tol_T": 1e-9, "tol_res": 1e6, "iter": 40},
 ]
 EDIT_OPS = ["break", "unbreak", "cut_feeder", "restore_feeder", "nan_param", "restore_param", "reverse_pump"]
 
@@ -422,10 +425,27 @@ class Monitor:
         def wrapped(net, funct, mode, solver_vars, tols, pit_names, iter_name):
             rec = {"mode": mode, "last": None, "iters": 0, "iter_name": iter_name, "max_iter": net["_options"][iter_name]}
 
+            def snap(net_):
+                """the unknown vectors as they stand in the solver's tables (independent of what the linearisation returns)"""
+                from pandapipes.idx_branch import MDOTINIT as _M, TOUTINIT as _TO
+                from pandapipes.idx_node import PINIT as _P, TINIT as _T
+                key = "_pit" if mode == "bidirectional" else "_active_pit"
+                if key not in net_:
+                    return None
+                b, n = net_[key]["branch"], net_[key]["node"]
+                return {"mdot": b[:, _M].copy(), "p": n[:, _P].copy(), "Tout": b[:, _TO].copy(), "T": n[:, _T].copy()}
+
             def f2(net_):
+                before = snap(net_)
                 results, residual, filtered = funct(net_)
+                after = snap(net_)
                 rec["iters"] += 1
                 rec["last"] = ([np.array(r, dtype=float).copy() for r in results], np.array(residual, dtype=float).copy())
+                rec["indep"] = None
+                if before is not None and after is not None and all(before[k].shape == after[k].shape for k in before):
+                    with np.errstate(invalid="ignore"):
+                        rec["indep"] = {k: (float(np.nanmax(np.abs(after[k] - before[k]))) if len(before[k]) and not np.all(
+                            np.isnan(after[k] - before[k])) else 0.0) for k in before}
                 return results, residual, filtered
             try:
                 return mon.orig(net, f2, mode, solver_vars, tols, pit_names, iter_name)
@@ -488,6 +508,16 @@ def check_call(net, kw, vs, where, tag):
                 if not e <= t:
                     vs.append(viol("returned_with_change_above_tolerance", "%s: stage %s returned although the last change of %s "
                                    "was %.3e > %.1e" % (where, m, nm, e, t), stage=m, unknown=nm, **tag))
+            # independent measurement: how far did the unknowns in the solver's own tables move in the last iteration?
+            ind = rec.get("indep")
+            if ind:
+                rel = {"hydraulics": (("mdot", o["tol_m"]), ("p", o["tol_p"])), "heat": (("Tout", o["tol_T"]), ("T", o["tol_T"])),
+                       "bidirectional": (("mdot", o["tol_m"]), ("p", o["tol_p"]), ("Tout", o["tol_T"]), ("T", o["tol_T"]))}[m]
+                for nm, t in rel:
+                    if not ind[nm] <= t * (1 + 1e-9):
+                        vs.append(viol("returned_with_change_above_tolerance", "%s: stage %s returned although %s in the solver's tables "
+                                       "moved by %.3e > %.1e in the last iteration" % (where, m, nm, ind[nm], t), stage=m, unknown=nm,
+                                       measured="tables", **tag))
             rn = np.max(np.abs(residual)) if len(residual) else 0.0
             if not rn <= o["tol_res"]:
                 vs.append(viol("returned_with_residual_above_tolerance", "%s: stage %s residual %.3e > %.1e" % (
@@ -527,8 +557,8 @@ def check_call(net, kw, vs, where, tag):
 def history_cases(tier):
     """a history is a sequence of steps; a step is an optional edit followed by one pipeflow call"""
     depth = 2 if tier == "quick" else 3
-    calls = list(range(len(CALLS))) if tier == "thorough" else [0, 1, 2, 3, 6, 8]
-    edits = [None] + EDIT_OPS
+    calls = list(range(len(CALLS))) if tier == "thorough" else [0, 1, 2, 3, 10, 11, 12]
+    edits = [None] + (EDIT_OPS if tier == "thorough" else ["break", "unbreak", "cut_feeder", "restore_feeder", "nan_param"])
     steps = [(e, c) for e in edits for c in calls]
     if tier == "thorough":
         # depth 3 with the full menu is too large: third step restricted to the plain calls without edit
